@@ -206,6 +206,16 @@ class Threadless(ABC, Generic[T]):
                         'KeyError when trying to register fd#{0}'.format(fileno),
                         exc_info=exc,
                     )
+        # Unregister descriptors the work is no longer interested in
+        # (e.g. an upstream connection it has closed or replaced), otherwise
+        # the stale entry shadows whichever work gets that descriptor next.
+        registered = self.registered_events_by_work_ids.get(work_id, {})
+        for fileno in [fd for fd in registered if fd not in worker_events]:
+            try:
+                self.selector.unregister(fileno)
+            except (KeyError, ValueError):
+                pass
+            del registered[fileno]
 
     async def _update_conn_pool_events(self) -> None:
         if not self._upstream_conn_pool:
